@@ -161,7 +161,26 @@ def check(run, model, tier):
         for h in inner.nested.values():
             own = own + fx.own_writes(h)
         bad = []
+        # putting the search cursor back on the current state before an exception is passed on (`except: self.temp.fun = self.state.fun; raise`) restores the
+        # processor's own invariant on the failure path; it is not an effect of instrumentation
+        restoring = set()
+        for t_ in ast.walk(inner.node):
+            if isinstance(t_, ast.Try):
+                for h_ in t_.handlers:
+                    if h_.body and isinstance(h_.body[-1], ast.Raise) and h_.body[-1].exc is None:
+                        hdefs_ = local_defs(inner.node)
+                        for b_ in [y_ for st_ in h_.body for y_ in ast.walk(st_)]:
+                            if isinstance(b_, ast.Assign) and len(b_.targets) == 1 and (dotted(b_.targets[0]) or '').endswith('.temp.fun'):
+                                v_ = b_.value
+                                if isinstance(v_, ast.Name):
+                                    ds_ = [d_ for d_ in hdefs_.get(v_.id, []) if isinstance(d_, ast.AST)]
+                                    v_ = ds_[0] if len(ds_) == 1 else v_
+                                txt_ = norm(v_)
+                                if (dotted(v_) or '').endswith('.state.fun') or ('state' in txt_ and 'fun' in txt_ and 'temp' not in txt_):
+                                    restoring.update(id(x_) for x_ in ast.walk(b_))
         for root, path, node, how in own:
+            if id(node) in restoring:
+                continue
             if root == recv:
                 if not wrap.in_namespace(path):
                     bad.append('%s.%s (%s)' % (root, path, how))
